@@ -77,13 +77,13 @@ var props = map[string]propCfg{
 		Assumptions: commonAssumptions,
 	},
 	"C06": {
-		Require:      []string{"times_compared", "illegal_timestamps_reported_as_errors", "histories_through_the_file_handler", "histories_run_side_by_side"},
+		Require:      []string{"times_compared", "illegal_timestamps_reported_as_errors", "histories_through_the_file_handler", "histories_run_side_by_side", "handlers_created_side_by_side"},
 		QuickBatches: 8, ThoroughBatches: 64, Parallel: 16, Level: "exploration", Floor: 100,
 		Rule:        "histories generated truth first: a start time T (any of 7 time zones; half of them within +-2 s, a quarter of those within +-2 ms, of a constellation's week rollover), then per participating constellation (random non-empty subset of GPS, GLONASS, Galileo, BeiDou) true UTC observation instants u1 <= u2 <= ... with u1 >= T inside T's constellation week and gaps in {0, 1 ms, seconds, hours, up to 6 d - 1 ms, exactly on/around the next rollover}, spanning 0..many rollovers; each instant is converted to its 30-bit timestamp by pure time arithmetic (no rollover logic in the oracle); constellations and MSM4/MSM7 types are interleaved at random and illegal timestamps (>= 7 d of ms; GLONASS day 7 or >= 24 h of ms) are spliced in anywhere. The frames go through handler.GetMessage on one handler, a third of the histories through the stream handler. Every reported SentAt and StartOfWeek is parsed back and must equal the true instant / true week start; illegal timestamps must come back as errors without disturbing later messages. Non-trivial: >=2 constellations cross a rollover, or an illegal timestamp is followed by valid messages. Distinct by hash of the history.",
 		Assumptions: commonAssumptions,
 	},
 	"C17": {
-		Require: []string{"times_compared", "display_processes_checked", "displayed_times_compared", "histories_through_the_file_handler", "histories_run_side_by_side"},
+		Require: []string{"times_compared", "display_processes_checked", "displayed_times_compared", "histories_through_the_file_handler", "histories_run_side_by_side", "handlers_created_side_by_side"},
 		BinRace: true, Bins: []string{"displayrtcm3"},
 		QuickBatches: 8, ThoroughBatches: 64, Parallel: 16, Level: "exploration", Floor: 100,
 		Rule:        "as C06, but the first observation of each constellation is drawn anywhere in the constellation week that contains the start time T: the first instant of the week, T itself, 1 ms / up to 3 s before T, the last millisecond of the week, or uniformly - followed by a C06-style continuation across rollovers. Non-trivial: some constellation's first observation is earlier than T. Distinct by hash of the history.",
